@@ -272,6 +272,10 @@ pub fn sample_f64<const D: usize>(s: &SampleGenerator<D>, x: &[f64], ed: Vec<(Op
 
 /// decompose an f64 matrix with panic capture
 pub fn decompose(a: &Mat, stab: Option<f64>) -> Result<Decomp, SutErr> {
+    decompose_dbg(a, stab, false)
+}
+/// the same with print_debug_info chosen by the caller (the routine prints to stdout, which the harness silences)
+pub fn decompose_dbg(a: &Mat, stab: Option<f64>, debug: bool) -> Result<Decomp, SutErr> {
     let n = a.len();
     let mut m = SquareMatrix::new_zeros_from_num(&0.0f64, n);
     for i in 0..n {
@@ -279,7 +283,7 @@ pub fn decompose(a: &Mat, stab: Option<f64>) -> Result<Decomp, SutErr> {
             m[(i, j)] = a[i][j];
         }
     }
-    let st = settings(stab, false, false);
+    let st = settings(stab, debug, false);
     match catch_unwind(AssertUnwindSafe(|| m.decompose_for_tropical(&st))) {
         Ok(Ok(d)) => Ok(decomp_of(&d)),
         Ok(Err(MatrixError::ZeroDet)) => Err(SutErr::ZeroDet),
